@@ -211,3 +211,20 @@ func (m *Map) Range(f func(k, v any) bool) {
 		}
 	}
 }
+
+// Pass-throughs for the rest of package sync, so that a file whose import was aliased keeps
+// compiling whatever it uses. Pool never blocks; Cond is built on a Locker (vsync.Mutex
+// satisfies it) but its Wait parks the goroutine outside the scheduler: not used by the
+// repository at the pinned commit, kept only for compilation.
+type (
+	Pool = sync.Pool
+	Cond = sync.Cond
+)
+
+func NewCond(l Locker) *Cond { return sync.NewCond(l) }
+
+func OnceFunc(f func()) func() { return sync.OnceFunc(f) }
+
+func OnceValue[T any](f func() T) func() T { return sync.OnceValue(f) }
+
+func OnceValues[T1, T2 any](f func() (T1, T2)) func() (T1, T2) { return sync.OnceValues(f) }
